@@ -114,7 +114,9 @@ __CPROVER_ensures(xv_polled ==> (xv_poll_fd >= 0 && xv_poll_events == POLLIN && 
 /* ==================================================================================================================== */
 #ifdef XV_DNSTC_TC
 /* ==================================================================================================================== */
+#ifndef TRK_MAX_IPS
 #define TRK_MAX_IPS 32                      /* XCM_DNS_MAX_RESULT_SIZE: the longest list a resolver query hands out       */
+#endif
 #define FAM_OK(f) ((f) == AF_INET || (f) == AF_INET6)
 #define XV_ERRNO_OK(e) ((e) >= 1 && (e) <= XV_ERRNO_MAX)
 #define XV_UPD(x, cond, val) ((cond) ? (x) == (val) : (x) == __CPROVER_old(x))
@@ -125,7 +127,7 @@ __CPROVER_ensures(xv_polled ==> (xv_poll_fd >= 0 && xv_poll_events == POLLIN && 
 /* tcp_attr.c: applies the options to fd; 0, or -1 with the errno of the option that failed.  Begins an attempt (log). */
 int tcp_opts_effectuate(struct tcp_opts *opts, int fd)
 __CPROVER_requires(XV_FD_OURS(fd) && __CPROVER_r_ok(opts, sizeof(*opts)))
-__CPROVER_assigns(xv_errno, xv_eff_n, xv_eff_fd, xv_eff_rc, xv_eff_opts, XV_PRE_ASSIGNS, XV_FAIL_ASSIGNS, xv_att_begun, xv_att_failed, xv_att_errno)
+__CPROVER_assigns(xv_errno, xv_eff, xv_pre, xv_fail, xv_arow)
 __CPROVER_ensures(__CPROVER_return_value == 0 || (__CPROVER_return_value == -1 && XV_ERRNO_OK(xv_errno)))
 __CPROVER_ensures(xv_eff_n == __CPROVER_old(xv_eff_n) + 1 && xv_eff_fd == fd && xv_eff_rc == __CPROVER_return_value && xv_eff_opts == (const void *)opts)
 __CPROVER_ensures(xv_pre_bind_fd == -1 && xv_pre_eff_fd == ((__CPROVER_return_value == 0 && opts == &XT->tcp_opts) ? fd : -1))
@@ -133,57 +135,61 @@ __CPROVER_ensures(XV_UPD(xv_fail_n, __CPROVER_return_value < 0, __CPROVER_old(xv
 __CPROVER_ensures(XV_UPD(xv_att_begun, XT->ip_idx == xv_ai, __CPROVER_old(xv_att_begun) + 1))
 __CPROVER_ensures(XV_UPD(xv_att_failed, XT->ip_idx == xv_ai && __CPROVER_return_value < 0, __CPROVER_old(xv_att_failed) + 1))
 __CPROVER_ensures(XV_UPD(xv_att_errno, XT->ip_idx == xv_ai && __CPROVER_return_value < 0, xv_errno))
+__CPROVER_ensures(XV_SAME(xv_att_conn) && XV_SAME(xv_att_conn_rc) && XV_SAME(xv_att_conn_errno) && XV_SAME(xv_att_conn_fd) && XV_SAME(xv_att_conn_src))
 ;
 /* common_tp.c: builds a sockaddr_in / sockaddr_in6 (aborts on any other family) */
 void tp_ip_to_sockaddr(const struct xcm_addr_ip *xcm_ip, uint16_t port, int64_t scope, struct sockaddr *sockaddr)
 __CPROVER_requires(__CPROVER_r_ok(xcm_ip, sizeof(*xcm_ip)) && FAM_OK(xcm_ip->family) && __CPROVER_w_ok(sockaddr, sizeof(struct sockaddr_storage)))
-__CPROVER_assigns(__CPROVER_object_upto(sockaddr, sizeof(struct sockaddr_storage)), xv_sa_src, xv_sa_dst, xv_sa_port, xv_sa_scope)
+__CPROVER_assigns(__CPROVER_object_upto(sockaddr, sizeof(struct sockaddr_storage)), xv_sa)
 __CPROVER_ensures(sockaddr->sa_family == xcm_ip->family)
 __CPROVER_ensures(xv_sa_src == (const void *)xcm_ip && xv_sa_dst == (const void *)sockaddr && xv_sa_port == port && xv_sa_scope == scope)
 ;
+#define XV_XP_REG_SAME (XV_SAME(xv_reg_fd) && XV_SAME(xv_reg_event) && XV_SAME(xv_reg_id))
+#define XV_TM_SCHED_SAME (XV_SAME(xv_sched_id) && XV_SAME(xv_sched_timeout) && XV_SAME(xv_sched_mgr))
+#define XV_TM_EXP_SAME (XV_SAME(xv_expired_ret) && XV_SAME(xv_expired_n))
 /* xpoll.c: registers an open descriptor (aborts if it is registered already or epoll refuses); errno untouched */
 int xpoll_fd_reg_add(struct xpoll *xpoll, int fd, int event)
 __CPROVER_requires(xpoll != NULL && XV_FD_OURS(fd) && XV_DT_CNT_OK(xv_regs))
-__CPROVER_assigns(xv_regs, xv_reg_fd, xv_reg_event, xv_reg_id)
-__CPROVER_ensures(__CPROVER_return_value >= 0 && xv_regs == __CPROVER_old(xv_regs) + 1 && xv_reg_fd == fd && xv_reg_event == event && xv_reg_id == __CPROVER_return_value)
+__CPROVER_assigns(xv_xp)
+__CPROVER_ensures(__CPROVER_return_value >= 0 && xv_regs == __CPROVER_old(xv_regs) + 1 && xv_reg_fd == fd && xv_reg_event == event && xv_reg_id == __CPROVER_return_value && XV_SAME(xv_del_id))
 ;
 void xpoll_fd_reg_del(struct xpoll *xpoll, int reg_id)
 __CPROVER_requires(xpoll != NULL && reg_id >= 0 && xv_regs > 0)
-__CPROVER_assigns(xv_regs, xv_del_id)
-__CPROVER_ensures(xv_regs == __CPROVER_old(xv_regs) - 1 && xv_del_id == reg_id)
+__CPROVER_assigns(xv_xp)
+__CPROVER_ensures(xv_regs == __CPROVER_old(xv_regs) - 1 && xv_del_id == reg_id && XV_XP_REG_SAME)
 ;
 void xpoll_fd_reg_del_if_valid(struct xpoll *xpoll, int reg_id)
 __CPROVER_requires(xpoll != NULL && (reg_id < 0 || xv_regs > 0))
-__CPROVER_assigns(xv_regs, xv_del_id)
-__CPROVER_ensures(reg_id >= 0 ? (xv_regs == __CPROVER_old(xv_regs) - 1 && xv_del_id == reg_id) : (XV_SAME(xv_regs) && XV_SAME(xv_del_id)))
+__CPROVER_assigns(xv_xp)
+__CPROVER_ensures((reg_id >= 0 ? (xv_regs == __CPROVER_old(xv_regs) - 1 && xv_del_id == reg_id) : (XV_SAME(xv_regs) && XV_SAME(xv_del_id))) && XV_XP_REG_SAME)
 ;
 /* timer_mgr.c.  A timer id >= 0 held by the caller names a LIVE timer (typestate kept by the contracts below);
  * timer_mgr_has_expired and timer_mgr_ack dereference / assert the timer, so they need a live one. */
 int64_t timer_mgr_schedule(struct timer_mgr *mgr, double relative_timeout)
 __CPROVER_requires(mgr != NULL && XV_DT_CNT_OK(xv_timers))
-__CPROVER_assigns(xv_timers, xv_sched_id, xv_sched_timeout, xv_sched_mgr)
+__CPROVER_assigns(xv_tm)
 __CPROVER_ensures(__CPROVER_return_value >= 0 && xv_timers == __CPROVER_old(xv_timers) + 1)
-__CPROVER_ensures(xv_sched_id == __CPROVER_return_value && xv_sched_timeout == relative_timeout && xv_sched_mgr == (const void *)mgr)
+__CPROVER_ensures(xv_sched_id == __CPROVER_return_value && xv_sched_timeout == relative_timeout && xv_sched_mgr == (const void *)mgr && XV_TM_EXP_SAME)
 ;
 bool timer_mgr_has_expired(struct timer_mgr *mgr, int64_t timer_id)
 __CPROVER_requires(mgr != NULL && timer_id >= 0 && xv_timers > 0)
-__CPROVER_assigns(xv_expired_ret, xv_expired_n)
-__CPROVER_ensures(__CPROVER_return_value == xv_expired_ret && xv_expired_n == __CPROVER_old(xv_expired_n) + 1)
+__CPROVER_assigns(xv_tm)
+__CPROVER_ensures(__CPROVER_return_value == xv_expired_ret && xv_expired_n == __CPROVER_old(xv_expired_n) + 1 && XV_SAME(xv_timers) && XV_TM_SCHED_SAME)
 ;
 void timer_mgr_ack(struct timer_mgr *mgr, int64_t *timer_id)
 __CPROVER_requires(mgr != NULL && __CPROVER_rw_ok(timer_id, sizeof(*timer_id)) && *timer_id >= 0 && xv_timers > 0)
-__CPROVER_assigns(*timer_id, xv_timers)
-__CPROVER_ensures(*timer_id == -1 && xv_timers == __CPROVER_old(xv_timers) - 1)
+__CPROVER_assigns(*timer_id, xv_tm)
+__CPROVER_ensures(*timer_id == -1 && xv_timers == __CPROVER_old(xv_timers) - 1 && XV_TM_SCHED_SAME && XV_TM_EXP_SAME)
 ;
 void timer_mgr_cancel(struct timer_mgr *mgr, int64_t *timer_id)
 __CPROVER_requires(mgr != NULL && __CPROVER_rw_ok(timer_id, sizeof(*timer_id)) && (*timer_id < 0 || xv_timers > 0))
-__CPROVER_assigns(*timer_id, xv_timers)
-__CPROVER_ensures(*timer_id == -1 && xv_timers == __CPROVER_old(xv_timers) - (__CPROVER_old(*timer_id) >= 0 ? 1 : 0))
+__CPROVER_assigns(*timer_id, xv_tm)
+__CPROVER_ensures(*timer_id == -1 && xv_timers == __CPROVER_old(xv_timers) - (__CPROVER_old(*timer_id) >= 0 ? 1 : 0) && XV_TM_SCHED_SAME && XV_TM_EXP_SAME)
 ;
 /* util.c: SO_ERROR of a descriptor whose connect() was in progress: 0 connected, -1/EINPROGRESS not yet, -1/e failed with e */
 int ut_established(int fd)
 __CPROVER_requires(XV_FD_OURS(fd))
-__CPROVER_assigns(xv_errno, xv_est_n, xv_est_fd, xv_est_rc, xv_est_errno)
+__CPROVER_assigns(xv_errno, xv_est)
 __CPROVER_ensures(__CPROVER_return_value == 0 || (__CPROVER_return_value == -1 && XV_ERRNO_OK(xv_errno)))
 __CPROVER_ensures(xv_est_n == __CPROVER_old(xv_est_n) + 1 && xv_est_fd == fd && xv_est_rc == __CPROVER_return_value && \
                   xv_est_errno == (__CPROVER_return_value < 0 ? xv_errno : 0))
@@ -208,7 +214,7 @@ __CPROVER_ensures(xv_est_n == __CPROVER_old(xv_est_n) + 1 && xv_est_fd == fd && 
 #define TRK_GHOST_OK(t) (XV_FD_GHOST_RANGE && xv_connect_calls < XV_CALLS_MAX - 2 * TRK_REMAINING(t) - 2 && xv_connect_ok_calls < XV_CALLS_MAX - 2 * TRK_REMAINING(t) - 2 && \
                          xv_bind_calls < XV_CALLS_MAX - TRK_REMAINING(t) && xv_bind_ok_calls < XV_CALLS_MAX - TRK_REMAINING(t) && \
                          XV_DT_CNT_OK(xv_regs) && XV_DT_CNT_OK(xv_timers) && xv_regs < XV_DT_CNT_MAX - 2 && xv_timers < XV_DT_CNT_MAX - 2 && \
-                         xv_pre_eff_fd == -1 && xv_pre_bind_fd == -1 && xv_fk >= 0 && xv_fk < XV_NFD)
+                         xv_pre_eff_fd == -1 && xv_pre_bind_fd == -1)
 #define XV_FK_SAME_TC (xv_fdt.e[xv_fk].open == __CPROVER_old(xv_fdt.e[xv_fk].open) && xv_fdt.e[xv_fk].nonblock == __CPROVER_old(xv_fdt.e[xv_fk].nonblock))
 /* no descriptor opened, closed or altered */
 #define TRK_FDT_SAME (XV_FK_SAME_TC && XV_SAME(xv_open_cnt) && XV_SAME(xv_close_calls) && XV_SAME(xv_socket_calls))
@@ -216,14 +222,15 @@ __CPROVER_ensures(xv_est_n == __CPROVER_old(xv_est_n) + 1 && xv_est_fd == fd && 
 #define TRK_FRESH(t) (__CPROVER_is_fresh(t, sizeof(struct track)))
 #define TRK_IPS_FRESH(t) (__CPROVER_is_fresh((t)->remote_ips, TRK_IPS_BYTES(t)))
 #define TRK_LOCAL_FRESH(t) ((t)->local_ip == NULL || __CPROVER_is_fresh((t)->local_ip, sizeof(struct xcm_addr_ip)))
-#define TRK_REQUIRES_REST(t) (TRK_FAMS_OK(t) && TRK_FDS_OK(t) && TRK_IDX_OK(t) && TRK_LOCAL_OK(t) && (t)->timer_mgr != NULL && (t)->xpoll != NULL && \
-                              xv_trk == (void *)(t) && TRK_GHOST_OK(t))
+#define TRK_REQUIRES_SHAPE(t) (TRK_FAMS_OK(t) && TRK_FDS_OK(t) && TRK_IDX_OK(t) && TRK_LOCAL_OK(t) && (t)->timer_mgr != NULL && (t)->xpoll != NULL && \
+                               xv_trk == (void *)(t) && xv_fk >= 0 && xv_fk < XV_NFD)
+#define TRK_REQUIRES_REST(t) (TRK_REQUIRES_SHAPE(t) && TRK_GHOST_OK(t))
 
 #define TRK_ASSIGNS(t) (t)->ip_idx, (t)->state, (t)->badness_reason, (t)->fd_reg_id, (t)->timer_id
-#define TCN_GHOST_ASSIGNS xv_errno, xv_eff_n, xv_eff_fd, xv_eff_rc, xv_eff_opts, xv_sa_src, xv_sa_dst, xv_sa_port, xv_sa_scope, \
-                          xv_regs, xv_reg_fd, xv_reg_event, xv_reg_id, xv_del_id, xv_timers, xv_sched_id, xv_sched_timeout, xv_sched_mgr, \
-                          XV_BINDW_ASSIGNS, XV_CONNW_ASSIGNS
+#define TCN_GHOST_ASSIGNS xv_errno, xv_eff, xv_sa, xv_xp, xv_tm, XV_BINDW_ASSIGNS, XV_CONNECT_ASSIGNS, xv_conn
 
+#define XV_AROW_SAME (XV_SAME(xv_att_begun) && XV_SAME(xv_att_failed) && XV_SAME(xv_att_conn) && XV_SAME(xv_att_errno) && XV_SAME(xv_att_conn_rc) && \
+                      XV_SAME(xv_att_conn_errno) && XV_SAME(xv_att_conn_fd) && XV_SAME(xv_att_conn_src))
 /* ---- track_connect_next: the postconditions, parameterised by the index (i0) and the badness reason (b0) the walk starts from -- */
 /* outcome is one of: an attempt in progress, connected, list exhausted */
 #define TCN_STATE(t) ((t)->state == track_state_connecting || (t)->state == track_state_connected || (t)->state == track_state_bad)
@@ -234,13 +241,13 @@ __CPROVER_ensures(xv_est_n == __CPROVER_old(xv_est_n) + 1 && xv_est_fd == fd && 
 #define TCN_SKIPPED(t, i0) ((TRK_AI_IN(t) && xv_ai > (i0) && ((t)->state == track_state_bad || xv_ai < (t)->ip_idx)) ==> \
         (TRK_SUPP(t, TRK_FAM(t, xv_ai)) \
             ? (xv_att_begun == __CPROVER_old(xv_att_begun) + 1 && xv_att_failed == __CPROVER_old(xv_att_failed) + 1 && XV_ERRNO_OK(xv_att_errno) && \
-               xv_att_conn <= __CPROVER_old(xv_att_conn) + 1 && \
+               xv_att_conn - __CPROVER_old(xv_att_conn) <= 1u && \
                (xv_att_conn != __CPROVER_old(xv_att_conn) ==> (xv_att_conn_src == (const void *)&(t)->remote_ips[xv_ai] && xv_att_conn_rc == -1 && \
                                                               xv_att_conn_errno == xv_att_errno && xv_att_errno != EINPROGRESS))) \
             : (XV_SAME(xv_att_begun) && XV_SAME(xv_att_failed) && XV_SAME(xv_att_conn))))
 /* the walk stops at the first address whose connect() succeeds or is in progress: nothing beyond it (and nothing at or before the start) is touched */
 #define TCN_UNTOUCHED(t, i0) ((xv_ai <= (i0) || ((t)->state != track_state_bad && xv_ai > (t)->ip_idx) || !TRK_AI_IN(t)) ==> \
-        (XV_SAME(xv_att_begun) && XV_SAME(xv_att_failed) && XV_SAME(xv_att_conn) && XV_SAME(xv_att_errno)))
+        XV_AROW_SAME)
 /* the address it stops at: one attempt, no failed step, one connect() on the descriptor of its family, to THAT address, with the reported outcome */
 #define TCN_CURRENT(t, i0) (((t)->state != track_state_bad && xv_ai == (t)->ip_idx) ==> \
         (xv_att_begun == __CPROVER_old(xv_att_begun) + 1 && XV_SAME(xv_att_failed) && xv_att_conn == __CPROVER_old(xv_att_conn) + 1 && \
@@ -249,6 +256,11 @@ __CPROVER_ensures(xv_est_n == __CPROVER_old(xv_est_n) + 1 && xv_est_fd == fd && 
 /* badness_reason is at all times the errno of the LAST failed attempt; an exhausted list without any: ENOENT */
 #define TCN_REASON(t, b0) ((xv_fail_n != __CPROVER_old(xv_fail_n) ? ((t)->badness_reason == xv_fail_errno && XV_ERRNO_OK(xv_fail_errno)) \
             : (XV_SAME(xv_fail_errno) && (t)->badness_reason == (((t)->state == track_state_bad && (b0) == 0) ? ENOENT : (b0)))))
+/* at most one failed step and one connect() per address passed over (the counters are unsigned and wrap: this is also what makes
+ * "xv_fail_n changed" mean "a step failed") */
+#define TCN_END(t) ((t)->state == track_state_bad ? (t)->num_remote_ips : (t)->ip_idx)
+#define TCN_BOUNDED(t, i0) (xv_fail_n - __CPROVER_old(xv_fail_n) <= (unsigned)(TCN_END(t) - (i0) - 1) && \
+                            xv_conn_n - __CPROVER_old(xv_conn_n) <= (unsigned)(TCN_END(t) - (i0) - 1) + ((t)->state != track_state_bad ? 1u : 0u))
 /* EVERY attempt: options snapshot applied to the descriptor, then (local address configured) bound to it, registered, then connect() to remote_ips[ip_idx]:remote_port */
 #define TCN_ORDER(t) (XV_SAME(xv_unprepared) && XV_SAME(xv_wrong_addr) && XV_SAME(xv_unregistered) && \
                       ((t)->local_ip != NULL ? XV_SAME(xv_unbound) : XV_SAME(xv_bind_calls)) && xv_pre_eff_fd == -1 && xv_pre_bind_fd == -1)
@@ -282,6 +294,8 @@ __CPROVER_ensures(TCN_UNTOUCHED(track, __CPROVER_old(track->ip_idx)))
 __CPROVER_ensures(TCN_CURRENT(track, __CPROVER_old(track->ip_idx)))
 /* PO[C13] track_connect_next.errno_of_last_failed_attempt */
 __CPROVER_ensures(TCN_REASON(track, __CPROVER_old(track->badness_reason)))
+/* PO[C13] track_connect_next.one_attempt_per_address */
+__CPROVER_ensures(TCN_BOUNDED(track, __CPROVER_old(track->ip_idx)))
 /* PO[C13] track_connect_next.options_bind_register_before_connect */
 __CPROVER_ensures(TCN_ORDER(track))
 /* PO[C13,C08] track_connect_next.failed_attempts_dissolved */
@@ -292,19 +306,26 @@ __CPROVER_ensures(TCN_WAKEUP(track))
 __CPROVER_ensures(TCN_RESOURCES(track, __CPROVER_old(xv_regs), __CPROVER_old(xv_timers)))
 ;
 
+#define XV_CONN_ATT_SAME (XV_SAME(xv_conn_n) && XV_SAME(xv_conn_idx) && XV_SAME(xv_conn_fd) && XV_SAME(xv_conn_rc) && XV_SAME(xv_conn_errno) && \
+                          XV_SAME(xv_unprepared) && XV_SAME(xv_unbound) && XV_SAME(xv_wrong_addr) && XV_SAME(xv_unregistered))
 /* ---- track_abort_connect -------------------------------------------------------------------------------------------- */
 static void track_abort_connect(struct track *track)
 __CPROVER_requires(TRK_FRESH(track) && TRK_NUM_OK(track))
 __CPROVER_requires(TRK_IPS_FRESH(track))
 __CPROVER_requires(TRK_LOCAL_FRESH(track))
-__CPROVER_requires(TRK_REQUIRES_REST(track) && TRK_CUR_OK(track))
+__CPROVER_requires(TRK_REQUIRES_SHAPE(track) && TRK_CUR_OK(track))
+__CPROVER_requires(XV_FD_GHOST_RANGE && XV_DT_CNT_OK(xv_regs) && XV_DT_CNT_OK(xv_timers))
 __CPROVER_requires((track->fd_reg_id < 0 || xv_regs > 0) && (track->timer_id < 0 || xv_timers > 0))
-__CPROVER_assigns(track->fd_reg_id, track->timer_id, xv_errno, xv_regs, xv_del_id, xv_timers, XV_CONNECT_ASSIGNS, xv_disc_n, xv_disc_fd)
+__CPROVER_assigns(track->fd_reg_id, track->timer_id, xv_errno, xv_xp, xv_tm, XV_CONNECT_ASSIGNS, xv_conn)
 /* PO[C08] track_abort_connect.releases_registration_and_timer */
 __CPROVER_ensures(track->fd_reg_id == -1 && track->timer_id == -1 && xv_regs == __CPROVER_old(xv_regs) - (__CPROVER_old(track->fd_reg_id) >= 0 ? 1 : 0) && \
                   xv_timers == __CPROVER_old(xv_timers) - (__CPROVER_old(track->timer_id) >= 0 ? 1 : 0))
 /* PO[C13,C08] track_abort_connect.dissolves_the_attempt: one connect(AF_UNSPEC) on the descriptor of the current address; the descriptor stays open for the next address */
 __CPROVER_ensures(xv_disc_n == __CPROVER_old(xv_disc_n) + 1 && xv_disc_fd == TRK_CURFD(track) && TRK_FDT_SAME)
+__CPROVER_ensures(xv_connect_calls == __CPROVER_old(xv_connect_calls) + 1 && xv_connect_fd == TRK_CURFD(track) && \
+                  xv_connect_ok_calls >= __CPROVER_old(xv_connect_ok_calls) && xv_connect_ok_calls <= __CPROVER_old(xv_connect_ok_calls) + 1)
+/* no attempt is made here */
+__CPROVER_ensures(XV_CONN_ATT_SAME && XV_XP_REG_SAME && XV_TM_SCHED_SAME && XV_TM_EXP_SAME)
 ;
 
 #endif /* XV_DNSTC_TC */
